@@ -123,6 +123,15 @@ def catalogue():
     add("nn.symdel-custom", lambda: [seqs()], lambda a: sorted(nn.symdel(a[0], max_edits=2, custom_distance=levd, max_custom_distance=1)))
     add("nn.SymdelDB.lookup", lambda: [seqs(), seqs2()], lambda a: sorted(nn.SymdelDB(a[0], 1).lookup(a[1])))
     add("nn.LookupDB.lookup", lambda: [seqs(), seqs2()], lambda a: sorted(nn.LookupDB(a[0]).lookup(a[1], max_edits=1)))
+    # the same strings in the other role (query <-> reference) and the same collection at another radius
+    # (a reference sharing almost no deletion variant with the queries: nothing cached per query string may be narrowed to it)
+    add("nn.symdel-two-swapped", lambda: [["CDDK", "CCCC"], seqs()], lambda a: sorted(nn.symdel(a[0], max_edits=1, seqs2=a[1])))
+    add("nn.SymdelDB.lookup-swapped", lambda: [["CDDK", "CCCC", "CAAF"], seqs()], lambda a: sorted(nn.SymdelDB(a[0], 2).lookup(a[1])))
+    add("nn.LookupDB.lookup-swapped", lambda: [seqs2(), seqs()], lambda a: sorted(nn.LookupDB(a[0]).lookup(a[1], max_edits=2)))
+    add("nn.symdel-k2", lambda: [seqs()], lambda a: sorted(nn.symdel(a[0], max_edits=2)))
+    add("nn.hash_based-k2", lambda: [seqs() + seqs2()], lambda a: sorted(nn.hash_based(a[0], max_edits=2)))
+    add("nn.kdtree-compression", lambda: [seqs() + seqs2()], lambda a: sorted(nn.kdtree(a[0], max_edits=1, compression=6)))
+    add("nn.kdtree-compression5", lambda: [seqs2() + seqs()], lambda a: sorted(nn.kdtree(a[0], max_edits=1, compression=5)))
     add("nn.symdel-invalid", lambda: [[]], lambda a: nn.symdel(a[0]))
     add("nn.kdtree-invalid", lambda: [["CAXA"]], lambda a: nn.kdtree(a[0]))
     add("nn.nearest_neighbor_tcrdist", lambda: [tab()], lambda a: nn.nearest_neighbor_tcrdist(a[0], chain="beta", max_edits=2, max_tcrdist=60))
@@ -144,6 +153,10 @@ def catalogue():
     add("stats.jaccard_index", lambda: [seqs(), seqs2()], lambda a: [stats.jaccard_index(a[0], a[1]), stats.overlap(a[0], a[1]), stats.overlap_coefficient(a[0], a[1])])
     add("stats.subsample", lambda: [[3, 0, 2, 5]], lambda a: stats.subsample(a[0], 4), True)
     add("stats.powerlaw_sample", lambda: [], lambda a: stats.powerlaw_sample(size=5, xmin=2, alpha=2.5), True)
+    # large inputs (size thresholds may switch the code path): still a function of the NumPy seed only
+    add("stats.subsample-large", lambda: [[70000, 0, 50000, 3, 12]], lambda a: stats.subsample(a[0], 2000), True)
+    add("stats.powerlaw_sample-large", lambda: [], lambda a: stats.powerlaw_sample(size=20000, xmin=1, alpha=2.2), True)
+    add("distance.downsample-large", lambda: [[f"s{i % 977}" for i in range(30000)]], lambda a: distance.downsample(a[0], 500), True)
     add("stats.powerlaw_mle_alpha-bounds", lambda: [[1, 1, 2, 3, 1, 7, 2, 1, 12]], lambda a: stats.powerlaw_mle_alpha(a[0], method="exact", bounds=[2.5, 3.5]))
     add("stats.powerlaw_mle_alpha", lambda: [[1, 1, 2, 3, 1, 7, 2, 1, 12]], lambda a: [stats.powerlaw_mle_alpha(a[0], method=m) for m in ("simple", "continuitycorrection", "exact")])
     # distance
